@@ -249,3 +249,26 @@ func VerifHarness_C18_CollidingDockerLabels_MapOrder() {
 	vsymAssert(v1 == v2, "[maporder] the labels of a container do not depend on map iteration order")
 	vsymReach("C18_colliding_labels")
 }
+
+// C20-O3: a Docker label whose (already valid) key is a LogQL keyword: the
+// container carrying k=v is selected by the selector text {k="v"}, through the
+// real parser.
+func VerifHarness_C20_KeywordLabel() {
+	keys := []string{"on", "json", "by", "keep", "offset", "or", "unwrap", "bool", "sum", "ip", "plain"}
+	k := keys[vsymChoice("key", len(keys))]
+	fc := newFakeClient(2)
+	fc.ctrs = append(fc.ctrs,
+		types.Container{ID: "id0", Names: []string{"/c0"}, Image: "img", State: "running", Labels: map[string]string{k: "v"}},
+		types.Container{ID: "id1", Names: []string{"/c1"}, Image: "img", State: "running"})
+	expr, err := logql.Parse(`{`+k+`="v"}`, logql.ParseOptions{})
+	if err != nil {
+		vsymFinding("F37", true, "a label whose name is a LogQL keyword (on, json, by, keep, offset, or, unwrap, bool, ...) cannot be written in a selector: {on=\"v\"} is a parse error, so a container carrying the Docker label on=v cannot be selected by it")
+		return
+	}
+	le, ok := expr.(*logql.LogExpr)
+	vsymAssert(ok, "a selector parses to a log query")
+	q := &Querier{client: fc}
+	got, err := q.fetchContainers(context.Background(), logqlengine.SelectLogsParams{Labels: le.Sel.Matchers})
+	vsymAssert(err == nil && len(got) == 1 && got[0].ID == "id0", "the container carrying k=v, and only it, is selected by {k=\"v\"}")
+	vsymReach("C20_keyword_label")
+}
